@@ -338,3 +338,19 @@ Theorem C19_reload_same_outputs : forall (V G X Y : Type) (fwd : G -> tree V -> 
   (forall x, option_map (fun k => out k x) (restore_checkpoint (orbax_save m) fresh_m) = Some (out m x)).
 Proof. exact @reload_same_outputs. Qed.
 Print Assumptions C19_reload_same_outputs.
+
+(** The checkpoint directory written by the checkpointing logger: after any history of record_epoch calls
+    (any step values - repeated, decreasing - and any outcome of the frequency rule) every listed path
+    restores to the value written under it, and one path is listed per save. *)
+Theorem C19_checkpoint_history_restores : forall (V : Type) (h : list (Z * bool * V)),
+  ck_restore_all name_step_epoch h = map Some (ck_saved h).
+Proof. exact @ck_history_restores. Qed.
+Print Assumptions C19_checkpoint_history_restores.
+Theorem C19_checkpoint_history_paths : forall (V : Type) (naming : Z -> Z -> ck_name) (h : list (Z * bool * V)),
+  length (ck_paths (ck_run naming h)) = length (ck_saved h).
+Proof. exact @ck_history_paths_length. Qed.
+Print Assumptions C19_checkpoint_history_paths.
+Theorem C19_checkpoint_step_only_refuted :
+  exists h : list (Z * bool * Z), ck_restore_all name_step_only h <> map Some (ck_saved h).
+Proof. exact ck_step_only_refuted. Qed.
+Print Assumptions C19_checkpoint_step_only_refuted.
